@@ -1187,6 +1187,22 @@ def _uart_fifo():
     return uart._get_uart_fifo(4, sink_cd="a", source_cd="b")
 
 
+def _uart_rx_path():
+    """the real UART (no PHY object, FIFO depth 4) with its PHY side in domain a and everything else in sys = b: bytes offered at
+    uart.sink (PHY domain) must come out of the RX FIFO in the system domain.  Without a CSR bank the read strobe of the RXTX register
+    is a free input: with rx_fifo_rx_we it pops the FIFO, which makes it the consumer's ready."""
+    from litex.soc.cores import uart
+    from litex.soc.interconnect import stream
+    class W(Module):
+        def __init__(self):
+            self.submodules.uart = u = uart.UART(phy=None, tx_fifo_depth=4, rx_fifo_depth=4, rx_fifo_rx_we=True, phy_cd="a")
+            self.sink = u.sink
+            self.source = src = stream.Endpoint([("data", 8)])
+            self.comb += [src.valid.eq(u.rx_fifo.source.valid), src.data.eq(u.rx_fifo.source.data), src.first.eq(u.rx_fifo.source.first),
+                          src.last.eq(u.rx_fifo.source.last), u._rxtx.we.eq(src.ready)]
+    return ClockDomainsRenamer({"sys": "b"})(W())
+
+
 def _menu():
     Q, T = "quick", "thorough"
     # stream.AsyncFIFO: depth x buffered x memory variant (occupancy bound: depth, +2 when buffered, DESIGN C05)
@@ -1221,6 +1237,8 @@ def _menu():
     # UART FIFO wrapper
     nm = "uart._get_uart_fifo(4,a->b)/mem=sim"
     reg(nm, Q, lambda nm=nm: CdcStreamHarness(nm, _uart_fifo, 4))
+    nm = "uart.UART(phy_cd=a) RX path: uart.sink (a) -> rx_fifo -> sys (b)/mem=sim"
+    reg(nm, Q, lambda nm=nm: CdcStreamHarness(nm, _uart_rx_path, 4))
     nm = "uart._get_uart_fifo(4,a->b)/mem=emitted"
     reg(nm, T, lambda nm=nm: CdcStreamHarness(nm, _uart_fifo, 4, mem="emitted"))
     # BusSynchronizer
